@@ -14,7 +14,7 @@ func init() {
 		ID:          "C10",
 		Explanation: "the round protocol of Solver.Assume: (R10.1) the assumption flags are re-created and the trail is reset before any new literal is installed, (R10.2) the status is reset to Indet before propagation and the only other status stored is Unsat under a conflict, (R10.3) every installed literal is first tested not already false, then gets binding + flag + trail entry, and propagation from trail position 0 at level 1 lies on every path to return, (R10.4) where level 1 - which also holds the problem's unit clauses - is retracted wholesale, every recorded unit clause is bound again and pushed on the trail before propagation, (R10.5) every function binding unit clauses from outside (New, AppendClause's unit path) records them for that re-installation.",
 		NotDecided:  "that each round answers Sat exactly when problem and assumptions are jointly satisfiable (depends on the search and on conflict analysis under assumptions).",
-		Rules:       []ruleFn{ruleR10_1_3, ruleR10_4, ruleR10_5, ruleR10_6, ruleR9_7},
+		Rules:       []ruleFn{ruleR10_1_3, ruleR10_4, ruleR10_5, ruleR10_6, ruleR9_7, ruleR1_14, ruleR1_15},
 	})
 }
 
